@@ -97,6 +97,8 @@ class Device(object):
     h, payload = frame(cmd, a0, a1, data)
     if data:
       self.pending_payload = payload
+    if item[0] == 'slowmsg':
+      self.clock.now += 1000.0       # this packet trickles in: every deadline has passed by the time it is there
     return h
 
   def close(self):
@@ -172,6 +174,7 @@ HS_ALPHA = [
     ('msg', ('OPEN', 1, 0, 'shell:\0')),
     ('corrupt',),
     ('silence',),
+    ('slowmsg', ('OPEN', 1, 0, 'shell:\0')),     # an unrelated packet that arrives as the time budget runs out
 ]
 HS_ALPHA_MORE = [
     ('msg', ('AUTH', 3, 0, 'k')),
